@@ -102,6 +102,8 @@ func genCfg(rng *rand.Rand, profile string) Cfg {
 	}
 	c.WrapRemember = wrap && c.has("remember")
 	c.NilState = rng.Intn(3) == 0
+	c.Localizer = pickS(rng, "", "", "empty", "partial")
+	c.ModList = rng.Intn(3) == 0
 	return c
 }
 
